@@ -107,6 +107,14 @@ func VerifC15IPReuse() { verifPodHistoryMode(3, false, true) }
 
 func verifPodHistory(steps int, withEndpoints bool) { verifPodHistoryMode(steps, withEndpoints, false) }
 
+// hostNetwork pods: two live pods MAY hold the same address at the same time
+var verifSharedIPs = false
+
+func VerifC15SharedIP() {
+	verifSharedIPs = true
+	verifPodHistoryMode(3, false, false)
+}
+
 func verifPodHistoryMode(steps int, withEndpoints bool, sliceAfterFirstStep bool) {
 	store := &verifPods{cur: map[string]*v1.Pod{}}
 	var requeued []types.NamespacedName
@@ -146,6 +154,9 @@ func verifPodHistoryMode(steps int, withEndpoints bool, sliceAfterFirstStep bool
 	deliver := func(i int) {
 		cur := store.cur[names[i]]
 		old := delivered[i]
+		if cur == old {
+			return // nothing new to deliver (no artificial resync: it would repair a damaged index)
+		}
 		switch {
 		case old == nil && cur != nil:
 			_ = pc.onEvent(nil, cur, model.EventAdd)
@@ -197,7 +208,9 @@ func verifPodHistoryMode(steps int, withEndpoints bool, sliceAfterFirstStep bool
 		st.step(vp.Name("step", t))
 		// two live pods never hold the same IP at the same time
 		o := states[1-i]
-		vp.Assume(!(st.exists && o.exists && st.ip != "" && st.ip == o.ip))
+		if !verifSharedIPs {
+			vp.Assume(!(st.exists && o.exists && st.ip != "" && st.ip == o.ip))
+		}
 		if st.exists {
 			store.cur[names[i]] = st.object(names[i])
 		} else {
